@@ -169,6 +169,8 @@ def units(tier):
             us.append(("unit_compute", (m, sizes, "default", True)))
     us.sort(key=lambda u: (-(sum(u[1][1]) * 2 ** len(u[1][1])) if u[0] not in ("unit_lemmas", "unit_anysize", "unit_lean") else (-(2 ** u[1][1]) if u[0] == "unit_anysize" else (-10 ** 9 if u[0] == "unit_lean" else 0))))
     us.insert(0, ("unit_gauss_contracts", ()))
+    if tier == "quick":
+        us += [("unit_compute", (m, (1,) * 6, "default")) for m in extract.MODELS]
     return us
 
 
